@@ -299,6 +299,27 @@ ImplOut(r, o, t, p) ==
   CASE r = "assoc" -> OutAssoc(t, p) [] r = "comm" -> OutComm(t, p) [] r = "fold" -> OutFold(t, p) [] r = "dist" -> OutDist(t, p)
     [] r = "inverse" -> OutInverse(t, p) [] r = "restate" -> OutRestate(t, p) [] r = "varmul" -> OutVarMul(t, p)
     [] r = "move" -> OutMove(t, p) [] r = "factor" -> OutFactor(t, p)
+\* which branch of the rule's classifier / builder a step goes through (for branch-coverage accounting of the traces)
+BranchOf(r, o, t, p) ==
+  LET n == TermAt(t, p) IN
+  CASE r = "assoc" -> (IF SideOf(p) = "L" THEN "assoc.left_child_up" ELSE "assoc.right_child_up")
+    [] r = "comm" -> (IF n.k = "eq" THEN "comm.equation" ELSE IF n.k \in {"add", "mul"} /\ n.l.k = n.k THEN "comm.chain_" \o n.k ELSE "comm.swap_" \o n.k)
+    [] r = "fold" -> "fold." \o FoldType(n)[1]
+    [] r = "dist" -> (IF n.l.k = "add" THEN "dist.sum_on_left" ELSE "dist.sum_on_right")
+    [] r = "inverse" -> (IF n.r.k = "neg" THEN "inverse.negative_denominator" ELSE "inverse.plain")
+    [] r = "restate" -> "restate." \o RestateType(t, p)
+    [] r = "varmul" -> "varmul." \o VarMulType(n)[1]
+    [] r = "move" -> "move." \o MoveType(t, p)
+    [] r = "factor" -> "factor." \o FactorType(n)[1]
+    [] OTHER -> "other"
+AllBranches == {"assoc.left_child_up", "assoc.right_child_up", "comm.equation", "comm.chain_add", "comm.chain_mul", "comm.swap_add", "comm.swap_mul",
+  "fold.negation_simple", "fold.simple", "fold.simple_var_mult", "fold.chained_right_deep", "fold.chained_right", "fold.chained_right_left",
+  "fold.chained_right_left_left", "fold.chained_left_left_right", "dist.sum_on_left", "dist.sum_on_right", "inverse.negative_denominator", "inverse.plain",
+  "restate.subtract_negative_variable", "restate.subtract_negative_constant", "restate.subtract_term_with_constant", "restate.subtraction",
+  "restate.add_neg_const", "restate.add_neg_const_var", "restate.add_neg_const_var_exp", "varmul.simple", "varmul.chained", "varmul.chained_left_right",
+  "move.const_of_multiply", "move.addition", "factor.simple", "factor.chained_both", "factor.chained_right", "factor.chained_right_left",
+  "factor.chained_left", "factor.chained_left_right"}
+
 \* the relational contract on a model step (C01 / C02 / C07's variables) - what TLC checks over the model alone
 ImplStepAllowed(r, o, t, p) ==
   LET out == ImplOut(r, o, t, p)
